@@ -124,6 +124,13 @@ def lr_value(x: Any) -> Any:
 
 
 # ---------------------------------------------------------------------------------------------- configurations
+# several parameters of the same tag and rank whose (symbolic, independent) shapes may coincide while their depths differ: a rule evaluated
+# once per "kind" of parameter (a memo keyed without the depth, or without the shape) is refuted by the model the solver picks
+SAME_KIND: List[List[Tuple[int, str, str]]] = [[(2, "weight", "sym"), (2, "weight", "none"), (2, "weight", "sym")],
+                                               [(1, "norm", "one"), (1, "norm", "sym"), (3, "weight", "none"), (3, "weight", "sym")],
+                                               [(2, "output", "sym"), (1, "bias", "sym"), (2, "output", "one"), (1, "bias", "none")]]
+
+
 def param_sets(tier: str) -> List[List[Tuple[int, str, str]]]:
     th = tier == "thorough"
     combos = [(r, t, d) for r in (1, 2, 3) for t in TAGS for d in ("none", "sym")]
@@ -131,10 +138,10 @@ def param_sets(tier: str) -> List[List[Tuple[int, str, str]]]:
         return [combos[i:i + 3] for i in range(0, len(combos), 3)] + [[(2, "weight", "sym"), (1, "bias", "sym"), (2, "output", "none")],
                                                                       [(3, "weight", "none"), (1, "norm", "sym")], [(1, "weight", "sym")],
                                                                       [(2, "weight", "one"), (1, "bias", "one"), (2, "output", "one")],
-                                                                      [(1, "norm", "one"), (3, "weight", "one"), (1, "weight", "one")]]
+                                                                      [(1, "norm", "one"), (3, "weight", "one"), (1, "weight", "one")]] + SAME_KIND
     return [[(2, "weight", "sym"), (1, "bias", "none"), (2, "output", "none")], [(3, "weight", "none"), (1, "norm", "sym"), (1, "weight", "none")],
             [(2, "bias", "sym"), (3, "output", "sym"), (2, "norm", "none")], [(1, "output", "none"), (3, "bias", "none"), (3, "norm", "sym")],
-            [(2, "weight", "one"), (1, "bias", "one"), (2, "output", "one")], [(1, "norm", "one"), (3, "weight", "one")]]
+            [(2, "weight", "one"), (1, "bias", "one"), (2, "output", "one")], [(1, "norm", "one"), (3, "weight", "one")]] + SAME_KIND
 
 
 def configs(tier: str) -> List[Dict[str, Any]]:
